@@ -34,7 +34,10 @@ Inductive c09_case :=
 | CWrite (exact : bool) (f : fin) (rp : repr) (extend : bool)
          (obs : option (ovf_file Q * option sidecar))
 | CRead (fl : ovf_file Q) (side : option sidecar) (obs : option fobs)
-| CRound (f : fin) (rp : repr) (extend : bool) (obs : option fobs).
+| CRound (f : fin) (rp : repr) (extend : bool) (obs : option fobs)
+(* disk state: side-car before the save, save_subregions flag, the saved field's subregions,
+   side-car found after the save (None = no file) *)
+| CSidecar (before : option sidecar) (save_sub : bool) (sc : sidecar) (obs : option sidecar).
 
 Local Notation "a ==> b" := (implb a b) (at level 55, right associativity).
 Definition wrQ (rp : repr) (x : Q) : Q := match rp with RBin4 => round32 x | _ => x end.
@@ -128,4 +131,5 @@ Definition check_C09 (c : c09_case) : bool :=
           | _, _ => false
           end
       end
+  | CSidecar before save_sub sc obs => opt_eqb sidecar_eqb (sidecar_after before save_sub sc) obs
   end.
